@@ -1,0 +1,9 @@
+//go:build !verif
+
+package local
+
+import "context"
+
+// verifYield is a scheduling point used by the verification harness. It
+// compiles to nothing unless the "verif" build tag is set.
+func verifYield(ctx context.Context, point string) {}
